@@ -86,6 +86,10 @@ class _fill:
     bound_note = "find_bin/fill: bin count m<=3, contents symbolic"
     configs = staticmethod(_fill_cfgs)
 
+    def thorough_extra():
+        return [{"m": 4, "bins": "gapped", "dtype": "int64", "wk": "float", "keep_missed": True},
+                {"m": 4, "bins": "fixed", "dtype": "float64", "wk": "default", "keep_missed": False}]
+
     def inputs(b):
         binning = make_binning(b, "B", b.cfg.bins, b.cfg.m)
         kw = dict(self=hist1d(b, "h", binning, b.cfg.m, dtype=b.cfg.dtype, keep_missed=b.cfg.keep_missed), value=b.real("v"))
@@ -224,6 +228,10 @@ class _fill_n:
     bounded = True
     bound_note = "fill_n: batch size n<=2, bin count m<=2, contents symbolic"
     configs = staticmethod(_filln_cfgs)
+
+    def thorough_extra():
+        return [{"n": 3, "m": 2, "bins": "gapped", "dtype": "float64", "weights": "float64", "nan": False, "keep_missed": True},
+                {"n": 3, "m": 1, "bins": "fixed", "dtype": "int64", "weights": None, "nan": False, "keep_missed": True}]
 
     def inputs(b):
         binning = make_binning(b, "B", b.cfg.bins, b.cfg.m)
